@@ -1,8 +1,11 @@
 package c17
 
 import (
+	"unicode/utf8"
+
 	"encoding/binary"
 	"fmt"
+	"golang.org/x/text/unicode/norm"
 	"strings"
 
 	"verif/harness/core"
@@ -423,7 +426,24 @@ func mpMutate(r *core.Rand, b []byte, donor []byte) ([]byte, string, bool) {
 		if j >= i {
 			j++
 		}
-		return replace(keys[j].start, keys[j].end, b[keys[i].start:keys[i].end]), fmt.Sprintf("dupkey@%d", keys[j].start), true
+		dup := b[keys[i].start:keys[i].end]
+		note := "dupkey"
+		if keys[i].kind == 's' && keys[i].hdrEnd <= keys[i].end && r.Bool() {
+			// the same name in the OTHER normal form: the object type normalizes attribute names, so both spellings
+			// name one attribute although the bytes differ
+			raw := string(b[keys[i].hdrEnd:keys[i].end])
+			if utf8.ValidString(raw) {
+				alt := norm.NFD.String(raw)
+				if alt == raw {
+					alt = norm.NFC.String(raw)
+				}
+				if alt != raw {
+					dup = append(mpHeader('s', uint32(len(alt)), false), alt...)
+					note = "dupkey-other-normal-form"
+				}
+			}
+		}
+		return replace(keys[j].start, keys[j].end, dup), fmt.Sprintf("%s@%d", note, keys[j].start), true
 	case 4: // delete a value without adjusting the count
 		nd := nodes[r.Intn(len(nodes))]
 		return replace(nd.start, nd.end, nil), fmt.Sprintf("drop-value@%d", nd.start), true
